@@ -1,0 +1,297 @@
+//! Verification hooks (feature `verif-hooks`, off by default).
+//!
+//! * re-exports of the in-process server surface, so that a harness can drive the dispatcher
+//!   over `lsp_server::Connection::memory()` without the stdio main loop;
+//! * `RwLock` / `Mutex` wrappers around the tokio primitives with the same method names, which
+//!   record every acquisition (task, lock, mode, phase, call site) and pass through a scheduling
+//!   point that yields a harness-chosen number of times before the real acquisition.
+//!
+//! Nothing here changes behaviour unless a harness calls `verif::control::install` on the current
+//! thread; without it the wrappers only forward to tokio.
+
+use std::cell::RefCell;
+use std::future::Future;
+use std::ops::{Deref, DerefMut};
+use std::panic::Location;
+use std::sync::atomic::{AtomicU32, Ordering};
+
+pub use crate::context::{
+    ClientProxy, FileDiagnostic, ServerContext, ServerContextSnapshot, WorkspaceManager,
+    load_emmy_config,
+};
+pub use crate::handlers::{
+    ClientConfig, init_analysis, on_notification_handler, on_request_handler, on_response_handler,
+    server_capabilities,
+};
+
+#[derive(Debug, Clone, Copy, PartialEq, Eq)]
+pub enum Mode {
+    Read,
+    Write,
+    Mutex,
+}
+
+#[derive(Debug, Clone, Copy, PartialEq, Eq)]
+pub enum Phase {
+    Request,
+    Acquired,
+    Released,
+}
+
+#[derive(Debug, Clone)]
+pub struct LockEvent {
+    /// tokio task id (0 = not inside a spawned task, i.e. the main loop)
+    pub task: u64,
+    pub lock: u32,
+    pub lock_name: &'static str,
+    pub mode: Mode,
+    pub phase: Phase,
+    pub site: String,
+}
+
+#[derive(Default)]
+struct State {
+    enabled: bool,
+    events: Vec<LockEvent>,
+    schedule: Vec<u8>,
+    cursor: usize,
+    max_yields: u8,
+    points: u64,
+}
+
+thread_local! {
+    static STATE: RefCell<State> = RefCell::new(State::default());
+}
+
+pub mod control {
+    use super::*;
+
+    /// Start recording on this thread with the given schedule vector (each scheduling point consumes
+    /// one byte `b` and yields `b % (max_yields + 1)` times; an exhausted vector means no yields).
+    pub fn install(schedule: Vec<u8>, max_yields: u8) {
+        STATE.with(|s| {
+            *s.borrow_mut() = State {
+                enabled: true,
+                events: Vec::new(),
+                schedule,
+                cursor: 0,
+                max_yields,
+                points: 0,
+            }
+        });
+    }
+
+    /// Stop recording; returns the recorded events and the number of scheduling points passed.
+    pub fn take() -> (Vec<LockEvent>, u64) {
+        STATE.with(|s| {
+            let mut s = s.borrow_mut();
+            s.enabled = false;
+            (std::mem::take(&mut s.events), s.points)
+        })
+    }
+
+    pub fn events_len() -> usize {
+        STATE.with(|s| s.borrow().events.len())
+    }
+}
+
+fn current_task() -> u64 {
+    tokio::task::try_id()
+        .map(|id| id.to_string().parse::<u64>().unwrap_or(u64::MAX))
+        .unwrap_or(0)
+}
+
+fn record(lock: u32, lock_name: &'static str, mode: Mode, phase: Phase, site: &'static Location<'static>) {
+    STATE.with(|s| {
+        let mut s = s.borrow_mut();
+        if s.enabled {
+            s.events.push(LockEvent {
+                task: current_task(),
+                lock,
+                lock_name,
+                mode,
+                phase,
+                site: format!("{}:{}", site.file(), site.line()),
+            });
+        }
+    });
+}
+
+fn next_yields() -> u8 {
+    STATE.with(|s| {
+        let mut s = s.borrow_mut();
+        if !s.enabled {
+            return 0;
+        }
+        s.points += 1;
+        let c = s.cursor;
+        if c < s.schedule.len() {
+            s.cursor += 1;
+            s.schedule[c] % (s.max_yields.saturating_add(1))
+        } else {
+            0
+        }
+    })
+}
+
+/// A scheduling point: yields to the runtime a harness-chosen number of times.
+pub async fn sched_point(_what: &'static str) {
+    let n = next_yields();
+    for _ in 0..n {
+        tokio::task::yield_now().await;
+    }
+}
+
+static NEXT_LOCK_ID: AtomicU32 = AtomicU32::new(1);
+
+pub struct RwLock<T> {
+    inner: tokio::sync::RwLock<T>,
+    id: u32,
+}
+
+pub struct RwLockReadGuard<'a, T> {
+    guard: tokio::sync::RwLockReadGuard<'a, T>,
+    id: u32,
+    site: &'static Location<'static>,
+}
+
+pub struct RwLockWriteGuard<'a, T> {
+    guard: tokio::sync::RwLockWriteGuard<'a, T>,
+    id: u32,
+    site: &'static Location<'static>,
+}
+
+impl<T> RwLock<T> {
+    pub fn new(value: T) -> Self {
+        Self {
+            inner: tokio::sync::RwLock::new(value),
+            id: NEXT_LOCK_ID.fetch_add(1, Ordering::Relaxed),
+        }
+    }
+
+    pub fn verif_id(&self) -> u32 {
+        self.id
+    }
+
+    #[track_caller]
+    pub fn read(&self) -> impl Future<Output = RwLockReadGuard<'_, T>> {
+        let site = Location::caller();
+        async move {
+            let name = std::any::type_name::<T>();
+            record(self.id, name, Mode::Read, Phase::Request, site);
+            sched_point("rwlock-read").await;
+            let guard = self.inner.read().await;
+            record(self.id, name, Mode::Read, Phase::Acquired, site);
+            RwLockReadGuard {
+                guard,
+                id: self.id,
+                site,
+            }
+        }
+    }
+
+    #[track_caller]
+    pub fn write(&self) -> impl Future<Output = RwLockWriteGuard<'_, T>> {
+        let site = Location::caller();
+        async move {
+            let name = std::any::type_name::<T>();
+            record(self.id, name, Mode::Write, Phase::Request, site);
+            sched_point("rwlock-write").await;
+            let guard = self.inner.write().await;
+            record(self.id, name, Mode::Write, Phase::Acquired, site);
+            RwLockWriteGuard {
+                guard,
+                id: self.id,
+                site,
+            }
+        }
+    }
+}
+
+impl<T> Deref for RwLockReadGuard<'_, T> {
+    type Target = T;
+    fn deref(&self) -> &T {
+        &self.guard
+    }
+}
+
+impl<T> Drop for RwLockReadGuard<'_, T> {
+    fn drop(&mut self) {
+        record(self.id, std::any::type_name::<T>(), Mode::Read, Phase::Released, self.site);
+    }
+}
+
+impl<T> Deref for RwLockWriteGuard<'_, T> {
+    type Target = T;
+    fn deref(&self) -> &T {
+        &self.guard
+    }
+}
+
+impl<T> DerefMut for RwLockWriteGuard<'_, T> {
+    fn deref_mut(&mut self) -> &mut T {
+        &mut self.guard
+    }
+}
+
+impl<T> Drop for RwLockWriteGuard<'_, T> {
+    fn drop(&mut self) {
+        record(self.id, std::any::type_name::<T>(), Mode::Write, Phase::Released, self.site);
+    }
+}
+
+pub struct Mutex<T> {
+    inner: tokio::sync::Mutex<T>,
+    id: u32,
+}
+
+pub struct MutexGuard<'a, T> {
+    guard: tokio::sync::MutexGuard<'a, T>,
+    id: u32,
+    site: &'static Location<'static>,
+}
+
+impl<T> Mutex<T> {
+    pub fn new(value: T) -> Self {
+        Self {
+            inner: tokio::sync::Mutex::new(value),
+            id: NEXT_LOCK_ID.fetch_add(1, Ordering::Relaxed),
+        }
+    }
+
+    #[track_caller]
+    pub fn lock(&self) -> impl Future<Output = MutexGuard<'_, T>> {
+        let site = Location::caller();
+        async move {
+            let name = std::any::type_name::<T>();
+            record(self.id, name, Mode::Mutex, Phase::Request, site);
+            sched_point("mutex-lock").await;
+            let guard = self.inner.lock().await;
+            record(self.id, name, Mode::Mutex, Phase::Acquired, site);
+            MutexGuard {
+                guard,
+                id: self.id,
+                site,
+            }
+        }
+    }
+}
+
+impl<T> Deref for MutexGuard<'_, T> {
+    type Target = T;
+    fn deref(&self) -> &T {
+        &self.guard
+    }
+}
+
+impl<T> DerefMut for MutexGuard<'_, T> {
+    fn deref_mut(&mut self) -> &mut T {
+        &mut self.guard
+    }
+}
+
+impl<T> Drop for MutexGuard<'_, T> {
+    fn drop(&mut self) {
+        record(self.id, std::any::type_name::<T>(), Mode::Mutex, Phase::Released, self.site);
+    }
+}
